@@ -240,6 +240,11 @@ X86Step(P, s) ==
               ELSE Fail(s, "value", "conditional jump on incomparable operands (" \o s.flags[1].t \o ", " \o s.flags[2].t \o ")"))
         ELSE IF i.a[1].l \notin DOMAIN P.labels THEN Fail(s, "asm", "undefined label " \o i.a[1].l)
         ELSE IF c = "T" THEN [s EXCEPT !.pc = P.labels[i.a[1].l], !.steps = s.steps + 1] ELSE Next1(s)
+  ELSE IF op \in {"jmp", "jmpn"} /\ i.a[1].k # "lab" /\ X86Read(s, i.a[1]) = RetV THEN
+     \* `pop r; jmp r`: a return whose address was popped by hand (the stack pointer is then 8 above its entry value)
+     LET sp == s.regs["rsp"]
+     IN IF sp.t # "stk" \/ sp.o # 8 THEN Fail(s, "cc", "return with the stack pointer not at its entry value")
+        ELSE X86Ret([s EXCEPT !.regs["rsp"] = StkV(0), !.stk = (0 :> RetV) @@ s.stk])
   ELSE IF op \in {"jmp", "jmpn"} THEN
      LET tgt == IF i.a[1].k = "lab" THEN CodeV(i.a[1].l, 0) ELSE X86Read(s, i.a[1])
          j == X86Resolve(P, tgt)
@@ -255,7 +260,19 @@ X86Step(P, s) ==
      IN IF sp.t # "stk" \/ sp.o >= 0 THEN Fail(s, "mem", "pop beyond the routine's own frame")
         ELSE Next1([s EXCEPT !.regs = [s.regs EXCEPT ![i.a[1].r] = Sparse(s.stk, sp.o, UndefV), !["rsp"] = StkV(sp.o + 8)],
                              !.stk = [o \in {k \in DOMAIN s.stk : k > sp.o} |-> s.stk[o]]])
-  ELSE IF op = "call" THEN X86ExternCall(s, i.a[1].l)
+  ELSE IF op = "call" THEN
+     \* direct, or through a register / memory word that holds the address of the external function
+     IF i.a[1].k = "lab" THEN X86ExternCall(s, i.a[1].l)
+     ELSE LET v == X86Read(s, i.a[1])
+          IN IF IsBadOrEx(v) THEN BadToFail(s, v)
+             ELSE IF IsJunk(v) THEN Fail(s, "undef", "call through an undefined register")
+             ELSE IF v.t = "code" /\ v.o = 0 THEN X86ExternCall(s, v.l)
+             ELSE Fail(s, "value", "call through a value that is no function address")
+  ELSE IF op = "leave" THEN      \* mov rsp, rbp; pop rbp
+     LET fp == s.regs["rbp"]
+     IN IF fp.t # "stk" \/ fp.o >= 0 \/ s.regs["rsp"].t # "stk" \/ fp.o < s.regs["rsp"].o THEN Fail(s, "mem", "leave with a frame pointer outside the routine's own frame")
+        ELSE Next1([s EXCEPT !.regs = [s.regs EXCEPT !["rbp"] = Sparse(s.stk, fp.o, UndefV), !["rsp"] = StkV(fp.o + 8)],
+                             !.stk = [o \in {k \in DOMAIN s.stk : k > fp.o} |-> s.stk[o]]])
   ELSE IF op = "ret" THEN X86Ret(s)
   ELSE Fail(s, "tool", "unknown instruction " \o op)
 =============================================================================
